@@ -17,7 +17,8 @@
    nothing).  Not modelled: the Go scheduler, sync.Mutex / sync.Cond and the Go
    memory model.  In particular Realize holds the mutexes of the virtual states
    it waits for; that only delays other goroutines, so the real interleavings
-   are a subset of the model's.  Reset / retry (C10) is not modelled.
+   are a subset of the model's.  A failed attempt is reset and retried (Reset);
+   the bound RetryCount and the error latch are C10's subject and not modelled.
    Style: stdlib. *)
 From Coq Require Import List Arith Bool ZArith.
 Import ListNotations.
@@ -37,15 +38,21 @@ Definition upd (w : world) (a : acct) (v : Z) : world :=
 Inductive prog :=
 | Done (r : list Z)                       (* return the receipt *)
 | Read (a : acct) (k : Z -> prog)         (* GetAccountState(a).GetBalance() *)
-| Write (a : acct) (v : Z) (k : prog).    (* GetAccountState(a).SetBalance(v) *)
+| Write (a : acct) (v : Z) (k : prog)     (* GetAccountState(a).SetBalance(v) *)
+| Fail (k : prog).                        (* this attempt returns ExecutionFailError / CriticalRerunError:
+                                             the executor resets the state and runs k (the next attempt) *)
 
-(* sequential execution of one program: final world and receipt *)
-Fixpoint run_prog (p : prog) (w : world) : world * list Z :=
+(* sequential execution of one program from the world s the transaction started
+   in: final world and receipt.  A failed attempt is undone: ctx.Reset(wcs) with
+   wcs = the snapshot taken before the first attempt. *)
+Fixpoint run_from (s : world) (p : prog) (w : world) : world * list Z :=
   match p with
   | Done r => (w, r)
-  | Read a k => run_prog (k (w a)) w
-  | Write a v k => run_prog k (upd w a v)
+  | Read a k => run_from s (k (w a)) w
+  | Write a v k => run_from s k (upd w a v)
+  | Fail k => run_from s k s
   end.
+Definition run_prog (p : prog) (w : world) : world * list Z := run_from w p w.
 
 (* ------------------------------------------------------------------ *)
 (* lock requests                                                        *)
@@ -105,13 +112,21 @@ Definition keys (reqs : list lockreq) : list acct :=
 Inductive lstate := SDep (d : nat) | SLive | SRO (v : Z).
 Record las := mkLas { l_lock : lock; l_st : lstate }.
 
+(* worldVirtualSnapshot taken by the worker before its first attempt (wvss) *)
+Record snapshot := mkSnap {
+  s_base : option world;          (* base *)
+  s_accts : acct -> option Z      (* accountSnapshots *)
+}.
+
 Record vstate := mkV {
   v_wlock : lock;                 (* worldLock *)
   v_accts : acct -> option las;   (* accountStates *)
   v_keys : list acct;             (* its keys (superset) *)
   v_base : option world;          (* base *)
   v_committed : option world;     (* committed *)
-  v_done : bool                   (* waiter == nil *)
+  v_done : bool;                  (* waiter == nil *)
+  v_lbase : acct -> option Z;     (* lockedAccountState.base: snapshot taken when the depend was resolved *)
+  v_snap : option snapshot        (* wvss of the worker goroutine (a local of it) *)
 }.
 
 (* worker goroutine of one transaction *)
@@ -164,17 +179,20 @@ Definition set_final (g : gstate) (w : world) : gstate :=
 Definition set_ctx (g : gstate) (lk : acct -> option nat) (wl : option nat) (ro : acct -> option Z) : gstate :=
   mkG (g_real g) (g_vs g) lk wl ro (g_disp g) (g_tokens g) (g_work g) (g_rcts g) (g_final g).
 
-Definition set_accts (v : vstate) (f : acct -> option las) : vstate :=
-  mkV (v_wlock v) f (v_keys v) (v_base v) (v_committed v) (v_done v).
 Definition set_base (v : vstate) (b : option world) : vstate :=
-  mkV (v_wlock v) (v_accts v) (v_keys v) b (v_committed v) (v_done v).
+  mkV (v_wlock v) (v_accts v) (v_keys v) b (v_committed v) (v_done v) (v_lbase v) (v_snap v).
 Definition set_committed (v : vstate) (c : option world) : vstate :=
-  mkV (v_wlock v) (v_accts v) (v_keys v) (v_base v) c (v_done v).
+  mkV (v_wlock v) (v_accts v) (v_keys v) (v_base v) c (v_done v) (v_lbase v) (v_snap v).
+Definition set_snap (v : vstate) (s : snapshot) : vstate :=
+  mkV (v_wlock v) (v_accts v) (v_keys v) (v_base v) (v_committed v) (v_done v) (v_lbase v) (Some s).
 
-(* accountStates[a] = l *)
-Definition set_las (g : gstate) (i : nat) (a : acct) (l : las) : gstate :=
+(* accountStates[a] = l with las.base = b *)
+Definition upd_accts (v : vstate) (a : acct) (l : las) (b : Z) : vstate :=
+  mkV (v_wlock v) (fun x => if Nat.eqb x a then Some l else v_accts v x) (v_keys v) (v_base v)
+      (v_committed v) (v_done v) (fun x => if Nat.eqb x a then Some b else v_lbase v x) (v_snap v).
+Definition set_las (g : gstate) (i : nat) (a : acct) (l : las) (b : Z) : gstate :=
   match g_vs g i with
-  | Some v => set_vs g i (set_accts v (fun x => if Nat.eqb x a then Some l else v_accts v x))
+  | Some v => set_vs g i (upd_accts v a l b)
   | None => g
   end.
 
@@ -214,11 +232,11 @@ Definition get_future (g : gstate) (i : nat) (t : tx) : gstate :=
   match world_lock reqs with
   | WriteLock =>
       (* setLocker(WorldIDStr): new empty lastAccountLocker, lastWorldLocker = this *)
-      set_ctx (set_vs g i (mkV WriteLock (fun _ => None) [] base None false))
+      set_ctx (set_vs g i (mkV WriteLock (fun _ => None) [] base None false (fun _ => None) None))
               (fun _ => None) (Some i) (g_rocache g)
   | wl =>
       let accts := fun a => match entry reqs a with Some l => Some (init_las g a l) | None => None end in
-      set_ctx (set_vs g i (mkV wl accts (keys reqs) base None false))
+      set_ctx (set_vs g i (mkV wl accts (keys reqs) base None false (fun _ => None) None))
               (fun a => match entry reqs a with Some WriteLock => Some i | _ => g_lockers g a end)
               (g_wlocker g)
               (fun a => match entry reqs a, get_locker g a, g_rocache g a with
@@ -323,9 +341,9 @@ Definition access (g : gstate) (i : nat) (a : acct) : option (gstate * handle) :
       | Some (mkLas l (SDep d)) =>
           if is_done g d then                                   (* las.depend.waitCommit() *)
             match l with
-            | WriteLock => Some (set_las g i a (mkLas l SLive), HLive)     (* real.GetAccountState(id) *)
+            | WriteLock => Some (set_las g i a (mkLas l SLive) (g_real g a), HLive)   (* real.GetAccountState(id); las.base = its snapshot *)
             | _ => match peek g d a with                                   (* depend.GetAccountROState(id) *)
-                   | Some x => Some (set_las g i a (mkLas l (SRO x)), HRO x)
+                   | Some x => Some (set_las g i a (mkLas l (SRO x)) x, HRO x)
                    | None => None
                    end
             end
@@ -390,10 +408,81 @@ Definition commit (g : gstate) (i : nat) : option gstate :=
                               | None => None
                               end in
         match v_wlock v with
-        | WriteLock => Some (set_vs g i (mkV WriteUnlock accts (v_keys v) (v_base v) (Some (g_real g)) true))
-        | wl => Some (set_vs g i (mkV wl accts (v_keys v) (v_base v) (v_committed v) true))
+        | WriteLock => Some (set_vs g i (mkV WriteUnlock accts (v_keys v) (v_base v) (Some (g_real g)) true (v_lbase v) (v_snap v)))
+        | wl => Some (set_vs g i (mkV wl accts (v_keys v) (v_base v) (v_committed v) true (v_lbase v) (v_snap v)))
         end
       else None
+  end.
+
+(* ------------------------------------------------------------------ *)
+(* GetSnapshot / Reset                                                  *)
+
+(* wvs.GetSnapshot() (after realizeBaseInLock for a world locker): with
+   committed != nil the base is committed; under the world write lock the base
+   is real.GetSnapshot(); else base = wvs.base and accountSnapshots holds the
+   snapshot of every write entry whose state is resolved *)
+Definition take_snapshot (g : gstate) (v : vstate) : snapshot :=
+  match v_committed v with
+  | Some c => mkSnap (Some c) (fun _ => None)
+  | None =>
+      match v_wlock v with
+      | WriteLock => mkSnap (Some (g_real g)) (fun _ => None)
+      | _ => mkSnap (v_base v)
+               (fun a => match v_accts v a with
+                         | Some (mkLas WriteLock SLive) => Some (g_real g a)
+                         | Some (mkLas WriteLock (SRO x)) => Some x
+                         | _ => None
+                         end)
+      end
+  end.
+
+(* the loop body of Reset for account a: the value the live account is reset
+   to; Some None = the entry is left alone (no write lock, or state == nil);
+   None = las.state.Reset(las.base) with a nil base (panics) *)
+Definition reset_val (v : vstate) (s : snapshot) (a : acct) : option (option Z) :=
+  match v_accts v a with
+  | Some (mkLas WriteLock st) =>
+      match s_accts s a with
+      | Some x => Some (Some x)                         (* las.state.Reset(ass) *)
+      | None =>
+          match st with
+          | SDep _ => Some None                          (* las.state == nil *)
+          | _ => match s_base s with
+                 | Some b => Some (Some (b a))           (* wvss.base.GetAccountSnapshot(id), Clear() if absent *)
+                 | None => match v_lbase v a with
+                           | Some x => Some (Some x)     (* las.state.Reset(las.base) *)
+                           | None => None
+                           end
+                 end
+          end
+      end
+  | _ => Some None
+  end.
+
+(* wvs_i.Reset(wvss) *)
+Definition reset (g : gstate) (i : nat) : option gstate :=
+  match g_vs g i with
+  | None => None
+  | Some v =>
+      if v_done v then None                              (* AlreadyCommitted *)
+      else match v_snap v with
+           | None => None
+           | Some s =>
+               match v_wlock v with
+               | WriteLock =>
+                   match s_base s with
+                   | Some b => Some (set_real g b)       (* wvs.real.Reset(wvss.base) *)
+                   | None => None
+                   end
+               | _ =>
+                   if forallb (fun a => match reset_val v s a with Some _ => true | None => false end) (v_keys v)
+                   then Some (set_real g (fun a => match reset_val v s a with
+                                                   | Some (Some x) => x
+                                                   | _ => g_real g a
+                                                   end))
+                   else None
+               end
+           end
   end.
 
 (* ------------------------------------------------------------------ *)
@@ -442,9 +531,14 @@ Definition step_start (txs : list tx) (g : gstate) (i : nat) : option gstate :=
       match g1 with
       | None => None
       | Some g1 =>
-          match access g1 i SYS with
-          | Some (g2, _) => Some (set_work g2 i (WRun (tx_prog t)))
+          match g_vs g1 i with
           | None => None
+          | Some v1 =>
+              let g1' := set_vs g1 i (set_snap v1 (take_snapshot g1 v1)) in      (* wvss := wvs.GetSnapshot() *)
+              match access g1' i SYS with
+              | Some (g2, _) => Some (set_work g2 i (WRun (tx_prog t)))
+              | None => None
+              end
           end
       end
   | _, _ => None
@@ -465,6 +559,12 @@ Definition step_worker (txs : list tx) (g : gstate) (i : nat) : option gstate :=
       match access g i a with
       | Some (g', HLive) => Some (set_work (set_real g' (upd (g_real g') a x)) i (WRun k))
       | Some (_, HRO _) => None        (* accountROState.SetBalance panics *)
+      | None => None
+      end
+  | Some (WRun (Fail k)) =>            (* retryable error: wvs.Reset(wvss); new handler; next attempt
+                                          (its UpdateSystemInfo repeats an access already made) *)
+      match reset g i with
+      | Some g' => Some (set_work g' i (WRun k))
       | None => None
       end
   | Some (WRun (Done r)) =>            (* *rb = rct; break; wvs.Commit() *)
@@ -582,13 +682,20 @@ Definition compile_s (s : sinstr) (obs : list Z) (rest : list Z -> prog) : prog 
         else rest (0%Z :: obs))
   end.
 
-Fixpoint compile (is : list instr) (obs : list Z) : prog :=
+(* fin: what follows the last instruction, given the observations *)
+Fixpoint compile_k (is : list instr) (obs : list Z) (fin : list Z -> prog) : prog :=
   match is with
-  | [] => Done (rev obs)
-  | IDo s :: r => compile_s s obs (compile r)
+  | [] => fin obs
+  | IDo s :: r => compile_s s obs (fun o => compile_k r o fin)
   | IGuard a k s :: r =>
-      Read a (fun v => if (k <=? v)%Z then compile_s s obs (compile r) else compile r obs)
+      Read a (fun v => if (k <=? v)%Z then compile_s s obs (fun o => compile_k r o fin) else compile_k r obs fin)
   end.
+Definition compile (is : list instr) (obs : list Z) : prog := compile_k is obs (fun o => Done (rev o)).
+
+(* a transaction whose first attempts fail after fails[0], fails[1], …
+   instructions (what they observed is dropped), followed by the full program *)
+Definition compile_fails (is : list instr) (fails : list nat) : prog :=
+  fold_right (fun k rest => compile_k (firstn k is) [] (fun _ => Fail rest)) (compile is []) fails.
 
 (* syntactic check that a program touches only what the transaction declared *)
 Definition sinstr_ok (t : tx) (s : sinstr) : bool :=
